@@ -24,6 +24,14 @@ from .seams import SimIds, SimLog, SimMemo
 
 DOCUMENTED = (ValueError, TypeError)
 
+# operations that rearrange / regroup the item list of one ACL without editing an entry in place
+SAFE_SHARED = {"group", "ungroup", "sort", "reverse", "permute_setter", "permute_popins", "pop",
+               "delitem", "remove", "delete", "insert", "append", "extend", "tcam", "shading",
+               "shadow_of", "set_name", "set_io", "set_indent", "items_self"}
+# operations after which "sort() restores the numbered order" still has to hold
+KEEPS_NUMBERING = {"resequence", "sort", "reverse", "permute_setter", "permute_popins", "tcam",
+                   "shading", "shadow_of", "set_name", "set_io", "set_indent", "set_note"}
+
 OWNER_OF_OP = {
     "set_platform": "C02", "flip3": "C02", "conv_obj": "C02",
     "delete_shadow": "C04", "shadow_triple": "C04",
@@ -154,6 +162,7 @@ class AclMachine(Machine):
             aborts=w.random() < 0.25,
             members_known=w.random() < 0.8,
             two_clients=w.random() < 0.2,
+            share_items=self.prop in ("C15", "C17") and w.random() < 0.25,
             from_config=w.random() < 0.2,
         )
         bias = BIAS.get(self.prop)
@@ -425,10 +434,14 @@ class AclMachine(Machine):
                 return "ok"
             if k == "move_item":
                 return self._op_move_item(op)
+            if k == "share_items":
+                return self._op_share_items(op)
             if k == "drop":
                 if len(self.slots) > 1:
                     self.slots.pop(op.get("t", 0) % len(self.slots))
                     self.faults["drop"] += 1
+                    for o in self.slots:
+                        o.pop("share", None)
                     return "ok"
                 return "noop"
             if k == "conv_obj":
@@ -497,6 +510,8 @@ class AclMachine(Machine):
         if len(self.slots) < 2:
             return "noop"
         a, b = self.slots[op["t"] % 2], self.slots[(op["t"] + 1) % 2]
+        if a.get("share") or b.get("share"):
+            return "noop"  # the same entry would stand in one ACL twice
         ma, mb = a["m"], b["m"]
         if not ma.blocks or (ma.platform, ma.version, ma.type, ma.port_nr, ma.protocol_nr) != \
                 (mb.platform, mb.version, mb.type, mb.port_nr, mb.protocol_nr):
@@ -513,6 +528,8 @@ class AclMachine(Machine):
                             return "noop"  # one definition per group name
         j = op["j"] % (len(mb.blocks) + 1)
         pre_a, pre_b = a["acl"].line, b["acl"].line
+        a.pop("numbered", None)
+        b.pop("numbered", None)
         item = a["acl"].pop(i)
         b["acl"].insert(j, item)
         ma2, mb2 = ma.clone(), mb.clone()
@@ -525,6 +542,40 @@ class AclMachine(Machine):
         self.probes["items_moved_between_acls"] += 1
         self.check_state(a, "giver after move_item", op=op)
         self.check_state(b, "taker after move_item", op=op)
+        return "ok"
+
+    def _op_share_items(self, op):
+        """A second ACL built from the item *objects* of a live one: both ACLs reference the same
+        entries and blocks.  Operations that only rearrange or regroup the item list of one of
+        them (SAFE_SHARED) must leave the other untouched; before any other operation the partner
+        is dropped, because entries edited in place legitimately show in both."""
+        if len(self.slots) != 1:
+            return "noop"
+        a = self.slots[0]
+        ma, acl = a["m"], a["acl"]
+        if any(isinstance(it, AceGroup) and not it.items for it in acl.items):
+            return "noop"
+        snap = norm(acl.data())
+        pre_text = acl.line
+        gb = op["group_by"]
+        new = Acl(name=op["name"], items=list(acl.items), platform=ma.platform,
+                  version=ma.version, type=ma.type, port_nr=ma.port_nr,
+                  protocol_nr=ma.protocol_nr, indent=ma.indent, group_by=gb)
+        owner = self.prop if self.prop in ("C15", "C16") else "C17"
+        if norm(acl.data()) != snap or acl.line != pre_text:
+            self._fail(owner, f"{owner}.interference",
+                       f"building a second ACL from the items of a live one changed the source: "
+                       f"{self._dict_diff(snap, norm(acl.data()))}", opkind="share_items")
+        mb = ma.clone()
+        mb.name = op["name"]
+        mb.group_by = gb
+        mb = apply_model(mb, {"op": "items_self"}).model
+        b = dict(acl=new, m=mb, share=True)
+        a["share"] = True
+        self.slots.append(b)
+        self.probes["acls_sharing_items"] += 1
+        self.check_state(b, "after share_items", op=op)
+        self.check_state(a, "source after share_items", op=op)
         return "ok"
 
     def _op_create_cfg(self, op):
@@ -595,6 +646,15 @@ class AclMachine(Machine):
                 and not any(r.kind == "ace" for r in m.flat()):
             return "noop-out-of-domain"  # C02 ranges over extended ACLs; nothing to convert
         slot["age"] = slot.get("age", 0)
+        if slot.get("share") and k not in SAFE_SHARED:
+            # entries edited in place legitimately show in every ACL that holds them
+            self.slots[:] = [slot]
+            slot.pop("share", None)
+            self.probes["sharing_ended_by_unsafe_op"] += 1
+        elif slot.get("share"):
+            self.probes["ops_on_sharing_acls"] += 1
+        if k not in KEEPS_NUMBERING:
+            slot.pop("numbered", None)
         self.probes["aged_prestate_steps" if slot["age"] else "fresh_prestate_steps"] += 1
         pre_text = acl.line
         pre_data = fastcopy(acl.data())
@@ -700,6 +760,11 @@ class AclMachine(Machine):
                         try:
                             self.check_state(slot, "after aborted resequence", owner="C17", op=op)
                             self.probes["torn_adopted[resequence]"] += 1
+                            if slot.get("numbered") != acl.line:
+                                # the refused call renumbered a part: what "the numbered order"
+                                # is now is not specified.  (If it put back the very text of the
+                                # last successful renumbering, sort() still has to restore it.)
+                                slot.pop("numbered", None)
                             return ename
                         except Violation:
                             slot["m"] = m
@@ -707,6 +772,7 @@ class AclMachine(Machine):
                 slot["acl"] = make_twin(pre_data)
                 slot["m"] = apply_model(m, {"op": "export_import"}).model
                 slot["age"] = 0
+                slot.pop("numbered", None)
             return ename
         if exp.error is not None:
             orc = "C10.error-iff" if owner == "C10" else f"{owner}.error-expected"
@@ -733,6 +799,20 @@ class AclMachine(Machine):
         m2 = exp.model
         if k == "resequence":
             self._oracle_resequence(slot, op, res, exp, pre_text)
+            if (10 if op.get("default") else op["start"]) > 0:
+                slot["numbered"] = acl.line
+            else:
+                slot.pop("numbered", None)
+        elif k == "sort" and slot.get("numbered") and not op.get("reverse") \
+                and op.get("key") is None:
+            # also after a *refused* renumbering in between: whatever a refused call leaves
+            # behind, a text that shows ascending numbers is what sort() has to restore
+            self._count_owned("C15")
+            self.probes["sort_after_numbering"] += 1
+            if acl.line != slot["numbered"]:
+                self._fail("C15", "C15.sort-restores",
+                           f"sort() after resequence and reordering did not restore the numbered "
+                           f"order:\n{slot['numbered']}\n---\n{acl.line}", opkind=k)
         elif k in ("delete_shadow", "shadow_triple"):
             m2 = self._oracle_delete_shadow(slot, op, res, m)
         elif k in ("ungroup_ports", "ungroup_ports_group"):
@@ -1490,6 +1570,9 @@ class AclMachine(Machine):
             return self._gen_create(w)
         if cfg.get("two_clients") and len(self.slots) < 2 and s.random() < 0.25:
             return self._gen_create(w)
+        if cfg.get("share_items") and len(self.slots) == 1 and s.random() < 0.2:
+            return dict(op="share_items", name="SHARED",
+                        group_by=s.choice(["", "", gen.HEAD, self.slots[0]["m"].group_by]))
         if "prefix_kinds" in cfg:
             i = getattr(self, "_pi", 0)
             self._pi = i + 1
@@ -1525,7 +1608,19 @@ class AclMachine(Machine):
         if kind == "tcam" and s.random() < 0.5:
             self._plan = [(t, "set_members", {}), (t, "tcam", {})]
         if kind == "resequence" and self.prop in ("C15", "C17") and s.random() < 0.5:
-            self._plan = [(t, "permute_popins", {}), (t, "permute_popins", {}), (t, "sort", {})]
+            self._plan = [(t, "permute_popins", {}), (t, "permute_popins", {}),
+                          (t, "sort", {"reverse": False, "key": None})]
+            nl_ = len(self.slots[t]["m"].flat())
+            if cfg["aborts"] and nl_ >= 1 and s.random() < 0.5:
+                # an entry appended behind the blocks, a renumbering that succeeds, one that is
+                # refused because the last numbers do not fit, then reorder and sort: the refused
+                # call must not spoil the order sort() works by
+                self._plan[:0] = [
+                    (t, "resequence", {"start": s.choice([1, 10, 100]),
+                                       "step": s.choice([1, 5, 10]), "default": False}),
+                    (t, "resequence", {"start": SEQ_MAX - nl_ + s.randint(1, nl_), "step": 1,
+                                       "default": False})]
+                op = self._gen_op("append", self.slots[t], st)
         elif kind == "resequence" and self.prop in ("C10", "C17") and s.random() < 0.3:
             self._plan = [(t, "set_item_seq", {}), (t, "resequence",
                                                     {k_: op[k_] for k_ in op if k_ != "memo"})]
